@@ -199,6 +199,16 @@ class DictMonitor:
                     s = self.Builder().store_dict(decoy).store_dict(cell).end_cell().begin_parse()
                     s.load_maybe_ref()
                     return (s.preload_dict if peek else s.load_dict)(w, value_deserializer=load)
+                def inline_after_ref():
+                    # the dictionary root written inline (Hashmap n X, not HashmapE) after another field whose reference has been consumed
+                    if len(cell.bits) + 5 > 1023 or len(cell.refs) > 3:
+                        return None
+                    s = self.Builder().store_ref(decoy).store_uint(21, 5).store_cell(cell).end_cell().begin_parse()
+                    s.load_ref()
+                    s.skip_bits(5)
+                    return s.load_hashmap(w, value_deserializer=load) if load else s.load_hashmap(w)
+                if len(cell.bits) + 5 <= 1023 and len(cell.refs) <= 3:
+                    routes.append(('inline-root-after-consumed-ref/load_hashmap', inline_after_ref))
                 routes += [('after-consumed-ref/load_dict', lambda: after_ref(False)), ('after-consumed-ref/preload_dict', lambda: after_ref(True)),
                            ('second-dict-field/load_dict', lambda: second_dict(False)), ('second-dict-field/preload_dict', lambda: second_dict(True))]
         for rname, f in routes:
